@@ -207,6 +207,7 @@ const (
 	OpApply        // c.Apply(&struct{... `inject`}) in request scope
 	OpSeeNamer     // resolve the Namer interface (implemented only by the application service) and note it
 	OpHTTPError    // answer with http.Error through the handed-out writer
+	OpHijack       // try to hijack the connection through the handed-out writer (the spy does not support it)
 	OpSetCT        // set a Content-Type before anything is written
 	OpSetCL        // announce a Content-Length the handler may never honour
 	OpExpireCtx    // install a derived context whose deadline has already passed (context.DeadlineExceeded, no timer)
@@ -270,6 +271,7 @@ type Req struct {
 	FSMut         []FSMutation
 	ETagOf        *Req // take If-None-Match from the ETag this earlier request of the same task was answered with
 	Flusher       bool
+	Hijacker      int   // underlying writer facet: 0 no http.Hijacker, 1 a Hijacker whose Hijack fails
 	Deadline      int64 // virtual ticks after start; 0 none
 	CtxErr        int   // what the request context reports once cancelled: 0 Canceled, 1 DeadlineExceeded, 2 a custom error
 	PlannedCancel int   // CancelAt as generated (Local.CancelAt is consumed during the run)
